@@ -192,7 +192,10 @@ def attempt_succeeds(member: dict, J: Any, doc: dict, depth: int = 0) -> bool:
         return is_nullable(s) or k in ("null", "any", "string", "integer", "number", "boolean")
     if k == "model":
         if not isinstance(J, dict):
-            return False
+            if J in ([], "", ()):
+                J = {}  # from_dict starts with dict(src): dict([]) and dict("") are {} - no exception
+            else:
+                return False
         props, req, addl = model_properties(member, doc)
         if not req <= set(J):
             return False
@@ -210,9 +213,10 @@ def attempt_succeeds(member: dict, J: Any, doc: dict, depth: int = 0) -> bool:
         ch = list(s.get("prefixItems") or []) + ([s["items"]] if s.get("items") else [])
         if not _constructs(member, doc):
             return True  # cast(list[...], value): anything goes
-        if not isinstance(J, list):
-            return False
-        for x in J:
+        if not isinstance(J, (list, str, dict)):
+            return False  # `for x in value` raises for a number / bool
+        # ... but ITERATES a string (characters) or a mapping (keys) without complaint
+        for x in list(J):
             if len(ch) == 1:
                 if not attempt_succeeds(ch[0], x, doc, depth + 1):
                     return False
@@ -251,18 +255,87 @@ def attempt_succeeds(member: dict, J: Any, doc: dict, depth: int = 0) -> bool:
     return True  # string / integer / number / boolean / any: cast, never raises
 
 
-def loosely_accepts(member: dict, J: Any, doc: dict) -> bool:
-    """Inside a union the generated decoder tries the members in order; a member 'accepts' J when its type check
-    passes and its attempt would not raise."""
+def fails_robustly(member: dict, J: Any, doc: dict, depth: int = 0) -> bool:
+    """Does the generated decoder's attempt at this schema CERTAINLY raise on J?  Only reasons that do not depend on
+    fine points of the generated code count: a required key is missing; a present value of a constructed scalar kind
+    (uuid, date, date-time, enum, const) is of the wrong type or unparseable; a present value of a model kind is
+    not a mapping (and not empty).  Everything about arrays and nulls is treated as 'may succeed'."""
+    if depth > 8 or J is None:
+        return False
+    s = resolve(member, doc)
+    k = classify(member, doc)
+    if is_nullable(s):
+        return False  # nullable => generated as a union with None, whose unconstructed member is a cast fallback: never raises
+    if k == "model":
+        if not isinstance(J, dict):
+            return J not in ([], "", ())  # dict([]) == {}: may succeed
+        props, req, addl = model_properties(member, doc)
+        if not req <= set(J):
+            return True
+        for name, ps in props.items():
+            if name in J and J[name] is not None and classify(ps, doc) in ("model", "uuid", "date", "date-time", "enum", "const", "union") \
+                    and fails_robustly(ps, J[name], doc, depth + 1):
+                return True
+        if isinstance(addl, dict) and addl and classify(addl, doc) in ("model", "uuid", "date", "date-time", "enum", "const"):
+            for name, v in J.items():
+                if name not in props and v is not None and fails_robustly(addl, v, doc, depth + 1):
+                    return True
+        return False
+    if k in ("date", "date-time"):
+        if not isinstance(J, str):
+            return True
+        try:
+            from dateutil.parser import isoparse
+
+            isoparse(J)
+            return False
+        except Exception:  # noqa: BLE001
+            return True
+    if k == "uuid":
+        if not isinstance(J, str):
+            return True
+        try:
+            uuid.UUID(J)
+            return False
+        except Exception:  # noqa: BLE001
+            return True
+    if k == "enum":
+        try:
+            return J not in [v for v in s.get("enum", []) if v is not None]
+        except TypeError:
+            return True
+    if k == "const":
+        return J != s.get("const")
+    if k == "union":
+        ms = union_members(s)
+        return bool(ms) and all(_guard_rejects(m, J, doc) or fails_robustly(m, J, doc, depth + 1) for m in ms) and all(_constructs(m, doc) for m in ms)
+    return False  # plain kinds are cast; arrays: not judged
+
+
+def _guard_rejects(member: dict, J: Any, doc: dict) -> bool:
+    """Inside a union every constructed member is guarded by a type check before its attempt."""
     k = classify(member, doc)
     if k == "model":
-        return isinstance(J, dict) and attempt_succeeds(member, J, doc)
+        return not isinstance(J, dict)
+    if k == "array":
+        return not isinstance(J, list)
+    if k in ("date", "date-time", "uuid"):
+        return not isinstance(J, str)
+    if k == "null":
+        return J is not None
+    if k == "enum":
+        vals = [v for v in resolve(member, doc).get("enum", []) if v is not None]
+        return bool(vals) and not isinstance(J, type(vals[0]))
+    return False
+
+
+def loosely_accepts(member: dict, J: Any, doc: dict) -> bool:
+    """May the generated decoder, trying this union member, take J?  True unless the member's type guard rejects J
+    or its attempt certainly raises (fails_robustly).  Used both to avoid generating ambiguous values (an EARLIER
+    member that may take the value) and to list the acceptable decodings of a value."""
+    k = classify(member, doc)
     if k == "null":
         return J is None
-    if k == "array":
-        return isinstance(J, list) and attempt_succeeds(member, J, doc)
-    if k in ("date", "date-time", "uuid"):
-        return isinstance(J, str) and attempt_succeeds(member, J, doc)
     if k in ("string", "binary"):
         return isinstance(J, str)
     if k == "integer":
@@ -271,13 +344,11 @@ def loosely_accepts(member: dict, J: Any, doc: dict) -> bool:
         return isinstance(J, (int, float)) and not isinstance(J, bool)
     if k == "boolean":
         return isinstance(J, bool)
-    if k == "enum":
-        return J in resolve(member, doc).get("enum", [])
-    if k == "const":
-        return J == resolve(member, doc).get("const")
     if k == "union":
         return any(loosely_accepts(m, J, doc) for m in union_members(resolve(member, doc)))
-    return True
+    if _guard_rejects(member, J, doc):
+        return False
+    return not fails_robustly(member, J, doc)
 
 
 # ---------------------------------------------------------------------- instance generation
